@@ -76,4 +76,131 @@ def check_scopes(cx, rep, needles=None, rule='ACC-SCOPE'):
                         fn.file, d.line)
             else:
                 rep.ok(rule, '%s|%s' % (fn.qname, d.name))
+    n += check_state_scopes(cx, rep, needles, rule)
+    n += check_flag_value_scopes(cx, rep, needles, rule)
+    return n
+
+
+def _lit_value(e):
+    """literal / None / unit-variant-like constant of an expression, or None when it is not a constant"""
+    if e is None:
+        return None
+    if e['k'] == 'Lit':
+        return ('lit', es(e))
+    if e['k'] == 'Path' and es(e) in ('None', 'true', 'false'):
+        return ('lit', es(e))
+    return None
+
+
+def check_state_scopes(cx, rep, needles=None, rule='ACC-SCOPE'):
+    """A flag (`let mut v = <const>`) that is set to another constant inside a `for` loop and *read later in the same iteration*
+    summarises the current element; declared outside that loop (and not reset in it) it also remembers earlier elements, so
+    the decision taken for element k depends on elements < k.  (A flag read *before* it is set — duplicate detection,
+    first-iteration flags — or only after the loop carries state across iterations by design and is not touched.)"""
+    n = 0
+    for fn in cx.crate.fns:
+        if len(fn.module.path) < 1 or fn.module.path[0] != 'trait_handlers':
+            continue
+        if needles is not None and not any(x in fn.qname for x in needles):
+            continue
+        fw = cx.fw(fn)
+        uses = {}
+        for ev in fw.events:
+            if ev.kind == 'use' and ev.node['k'] == 'Path' and len(ev.node['path']['segs']) == 1:
+                d = ev.scope.lookup(ev.node['path']['s'])
+                if d is not None and d.kind == 'let' and d.mutable:
+                    uses.setdefault(d.id, []).append(ev)
+        seen = set()
+        for ev in fw.events:
+            if ev.kind != 'assign' or getattr(ev, 'compound', False):
+                continue
+            t = ev.target
+            if t['k'] != 'Path' or len(t['path']['segs']) != 1:
+                continue
+            d = ev.scope.lookup(t['path']['s'])
+            if d is None or d.kind != 'let' or d.id in seen:
+                continue
+            init = _lit_value(d.init)
+            if init is None:
+                continue
+            seen.add(d.id)
+            assigns = [a for a in d.assigns if not getattr(a, 'compound', False)]
+            if any(getattr(a, 'compound', False) for a in d.assigns):
+                continue        # a counter
+            def_loops = set(c['id'] for c in d.ctx if c['k'] == 'for')
+            n += 1
+            bad = None
+            for a in assigns:
+                v = _lit_value(a.value)
+                if v is None or v == init:
+                    continue
+                aloops = [c for c in a.ctx if c['k'] == 'for' and c['id'] not in def_loops]
+                for L in aloops:
+                    # reset at the level of L before the write?
+                    reset = any(_lit_value(r.value) == init and r.seq < a.seq and any(c['id'] == L['id'] for c in r.ctx if c['k'] == 'for') and
+                                not [c for c in r.ctx if c['k'] == 'for' and c['id'] not in def_loops and c['id'] != L['id'] and
+                                     c['id'] not in set(x['id'] for x in a.ctx if x['k'] == 'for')]
+                                for r in assigns)
+                    if reset:
+                        continue
+                    for u in uses.get(d.id, ()):
+                        if u.node is t or u.seq <= a.seq:
+                            continue
+                        if u.node in [x.target for x in assigns]:
+                            continue
+                        if any(c['k'] == 'for' and c['id'] == L['id'] for c in u.ctx):
+                            bad = (L, a, u)
+            if bad:
+                L, a, u = bad
+                rep.bad(rule, fn.qname, 'carry-over=%s' % d.name,
+                        '`%s` is declared outside the loop over `%s` but set (line %d) and then read (line %d) inside one iteration of it without being reset: '
+                        'what earlier iterations found leaks into the decision for later ones' % (d.name, es(L['iter'])[:50] if L.get('iter') else '..', a.line, u.line),
+                        fn.file, d.line)
+            else:
+                rep.ok(rule, '%s|flag:%s' % (fn.qname, d.name))
+    return n
+
+
+LOOPS = ('for', 'while', 'loop')
+
+
+def check_flag_value_scopes(cx, rep, needles=None, rule='ACC-SCOPE'):
+    """`if x_is_set { return Err(reset) } x_is_set = true; x = v;` — the "already given" flag has to live exactly as long as the
+    value it protects: declared outside a loop the value is declared in, it refuses a parameter because *another* element
+    (another `Into(T)` list, another variant) had it; declared further in than the value, a repetition slips through."""
+    n = 0
+    for fn in cx.crate.fns:
+        if len(fn.module.path) < 1 or fn.module.path[0] != 'trait_handlers':
+            continue
+        if needles is not None and not any(x in fn.qname for x in needles):
+            continue
+        fw = cx.fw(fn)
+        assigns = [ev for ev in fw.events if ev.kind == 'assign' and not getattr(ev, 'compound', False)
+                   and ev.target['k'] == 'Path' and len(ev.target['path']['segs']) == 1]
+        done = set()
+        for a in assigns:
+            if _lit_value(a.value) != ('lit', 'true'):
+                continue
+            F = a.scope.lookup(a.target['path']['s'])
+            if F is None or F.kind != 'let' or _lit_value(F.init) != ('lit', 'false'):
+                continue
+            floops = set(c['id'] for c in F.ctx if c['k'] in LOOPS)
+            for b in assigns:
+                if b is a or len(b.ctx) != len(a.ctx) or any(x is not y and x != y for x, y in zip(b.ctx, a.ctx)):
+                    continue
+                V = b.scope.lookup(b.target['path']['s'])
+                if V is None or V is F or V.kind != 'let' or (F.id, V.id) in done:
+                    continue
+                if _lit_value(b.value) is not None and _lit_value(V.init) == ('lit', 'false') and _lit_value(b.value) == ('lit', 'true'):
+                    continue      # two flags set together
+                done.add((F.id, V.id))
+                vloops = set(c['id'] for c in V.ctx if c['k'] in LOOPS)
+                n += 1
+                if floops != vloops:
+                    rep.bad(rule, fn.qname, 'flag-scope=%s/%s' % (F.name, V.name),
+                            'the flag `%s` (line %d) that records that `%s` (line %d) has been given does not live in the same loop iteration as the value it protects: '
+                            'a value given for one element makes the parameter count as repeated (or a repetition go unnoticed) for another' % (F.name, F.line, V.name, V.line),
+                            fn.file, F.line)
+                else:
+                    rep.ok(rule, '%s|flag:%s~%s' % (fn.qname, F.name, V.name))
     return n
